@@ -6,6 +6,47 @@ from collections import defaultdict
 from .mir import Body, callee_name, callee_path, E, apath
 
 
+# The types the rules' vocabulary is written in.  They are found by *name* among the crate's own types; the module they live in
+# is free (moving a type into a submodule and re-exporting it changes every path the compiler prints, and nothing else).
+ROLE_TYPES = {
+    "SplittedString": "utility::SplittedString", "Config": "config::Config", "Data": "data::Data",
+    "Suggestion": "suggestion::Suggestion", "Rank": "suggestion::Rank", "RitiContext": "context::RitiContext",
+    "Layout": "fixed::layout::Layout", "FixedMethod": "fixed::method::FixedMethod", "PhoneticMethod": "phonetic::method::PhoneticMethod",
+    "PhoneticSuggestion": "phonetic::suggestion::PhoneticSuggestion", "LayoutModifiers": "fixed::layout::LayoutModifiers",
+}
+
+
+def canonicalise(doc):
+    """Rewrites the def-paths of role types that live in another module than the rules' vocabulary names them in.
+    Returns (doc, {actual path: canonical path}); the doc is returned unchanged when nothing moved."""
+    import json
+    paths = [a["path"] for a in doc["adts"]]
+    mapping = {}
+    for name, canon in ROLE_TYPES.items():
+        if canon in paths:
+            continue
+        found = [p for p in paths if p.rsplit("::", 1)[-1] == name]
+        if len(found) == 1:
+            mapping[found[0]] = canon
+    # inherent methods written in an `impl Type` block of another module print as `module::<impl Type>::name`; the method is `Type::name`
+    local = set(paths)
+    for k in list(doc["fns"]):
+        m = re.match(r"^[A-Za-z0-9_:]+::<impl ([A-Za-z0-9_:]+)(<[^>]*>)?>::", k)
+        if m and m.group(1) in local:
+            prefix = k[:m.end() - 2]
+            generic = m.group(2) or ""
+            canon = m.group(1) + ("::" + generic if generic else "")
+            if prefix not in mapping and not any((canon + k[m.end() - 2:]) == other for other in doc["fns"]):
+                mapping[prefix] = canon
+    if not mapping:
+        return doc, {}
+    text = json.dumps(doc, ensure_ascii=False)
+    for actual in sorted(mapping, key=len, reverse=True):
+        text = re.sub(re.escape(json.dumps(actual, ensure_ascii=False)[1:-1]) + r"(?![A-Za-z0-9_])",
+                      lambda _m, r=json.dumps(mapping[actual], ensure_ascii=False)[1:-1]: r, text)
+    return json.loads(text), mapping
+
+
 class AnchorError(Exception):
     """A role locator matched zero or several items: fail closed."""
 
@@ -37,7 +78,16 @@ class Program:
                 from .inline import inlined_body
                 self._bodies[key] = inlined_body(self, key, stop=lambda g: g not in plumb, maxdepth=3)
             else:
-                self._bodies[key] = Body(self.fns[key])
+                f = self.fns[key]
+                if any(re.sub(r"<.*$", "", l["ty"]) in self.adts for l in f["mir"]["locals"][f["mir"]["arg_count"] + 1:]):
+                    # a local of a crate-private struct type that is only used field by field is a bundle of variables
+                    import copy
+                    from .sroa import scalarise
+                    m = copy.deepcopy(f["mir"])
+                    if scalarise(m, self):
+                        f = dict(f)
+                        f["mir"] = m
+                self._bodies[key] = Body(f)
         return self._bodies[key]
 
     def raw_body(self, key):
@@ -75,8 +125,10 @@ class Program:
                                                   if re.sub(r"<.*$", "", fl["ty"]) in local_adts and len(self.adts[re.sub(r"<.*$", "", fl["ty"])]["variants"][0]["fields"]) > 3):
                 continue
             tr = imp.get("trait")
-            if tr and tr not in ("std::convert::From", "std::convert::Into", "std::default::Default", "std::convert::AsRef", "std::ops::Deref",
-                                 "std::borrow::Borrow", "std::convert::TryFrom"):
+            derived = bool((f.get("def_loc") or {}).get("macro")) and tr in ("std::cmp::PartialEq", "std::cmp::Ord", "std::cmp::PartialOrd", "std::clone::Clone",
+                                                                              "std::default::Default")
+            if tr and not derived and tr not in ("std::convert::From", "std::convert::Into", "std::default::Default", "std::convert::AsRef", "std::ops::Deref",
+                                                 "std::borrow::Borrow", "std::convert::TryFrom"):
                 continue
             m = f["mir"]
             if len(m["blocks"]) > 40:
